@@ -548,7 +548,9 @@ def run(tier, seed):
     for fn, args in by.items():
         print(f"[C12] {fn}: {len(args)} work units", flush=True)
         for status, res in run_pool("vx.checks.c12", fn, args):
-            if status != "ok":
+            if status == "skipped":
+            continue
+        if status != "ok":
                 run.report({"signature": {"kind": "worker-exception"}, "what": f"harness worker failed: {res}", "case": {}})
                 continue
             total += res["n"]
